@@ -1919,14 +1919,17 @@ func (r *Resolvable) walkArray(arr *Array, value *astjson.Value) bool {
 		err := r.walkNode(arr.Item, arrayValue)
 		r.popArrayPathElement()
 		if err {
-			if arr.Item.NodeKind() == NodeKindObject && arr.Item.NodeNullable() {
+			itemKind := arr.Item.NodeKind()
+			if (itemKind == NodeKindObject || itemKind == NodeKindArray) && arr.Item.NodeNullable() {
 				value.SetArrayItem(r.astjsonArena, i, astjson.NullValue)
 				continue
 			}
-			if arr.Nullable {
+			if arr.Nullable && len(arr.Path) > 0 {
 				astjson.SetNull(r.astjsonArena, parent, arr.Path...)
 				return false
 			}
+			// a list that is itself a list item has no path: the enclosing list
+			// replaces the element (nullable) or keeps propagating
 			return err
 		}
 	}
